@@ -59,9 +59,9 @@ def run(pid, tier, replay=None):
             print("REPLAY-MISMATCH", l[:400])
         return 1 if bad else 0
     if pid == "C09":
-        runs = [("exh", 1 if tier == "quick" else 2, 0, None), ("sim", 12, 4, 40 if tier == "quick" else 600)]
+        runs = [("exh", 1 if tier == "quick" else 2, 0, None), ("sim", 12, 4, 15 if tier == "quick" else 600)]
     else:
-        runs = [("exh", 2 if tier == "quick" else 3, 0, None), ("sim", 14, 5, 40 if tier == "quick" else 1500)]
+        runs = [("exh", 2 if tier == "quick" or pid == "C10" else 3, 0, None), ("sim", 14, 5, 40 if tier == "quick" else 1500)]
     states = trans = ncases = 0
     feats = set()
     samples = []
